@@ -570,3 +570,514 @@ def c14(tier, seed):
                        "EpisodeRecord.filter over node subsets with both flags, utils.to_networkx_graph; GraphAlgebra recomputes each result from the "
                        "inputs (Strip/Index/Filter/ToNx laws) and compares")
     return rep.finish()
+
+
+# ================================================================================================
+# C18  search solvers
+# ================================================================================================
+def _solver_histories(N, E, losses, maxit):
+    cfgp = os.path.join(tlc.SPECS, f"Solvers_{N}_{E}_{maxit}.cfg")
+    with open(cfgp, "w") as f:
+        f.write(f"SPECIFICATION MSpec\nCONSTANTS\n  N = {N}\n  E = {E}\n  Losses = {{{', '.join(str(x) for x in losses)}}}\n  MaxIt = {maxit}\n"
+                "INVARIANT BestIsMinFiniteSoFar\nINVARIANT BestMemberAttainsIt\nINVARIANT NaNNeverBestWhileFiniteExists\nINVARIANT NaNEliteOnlyIfAllFiniteAre\n"
+                "INVARIANT Emit\nPROPERTY BestNeverIncreases\nCHECK_DEADLOCK FALSE\n")
+    try:
+        r = tlc.run_tlc("Solvers", cfg=os.path.basename(cfgp), workers=1, timeout=1200, heap="4g")
+    finally:
+        os.remove(cfgp)
+    st = r["stats"]
+    if st["invariant_violated"] or st["property_violated"] or st["error"] or not st["finished"]:
+        raise common.MachineryError("Solvers model: " + r["out"][-2500:])
+    hs = []
+    for line in r["out"].splitlines():
+        line = line.strip()
+        if line.startswith('"SOLV|'):
+            d = json.loads(line[6:-1].replace('\\"', '"'))
+            if len(d["hist"]) == maxit:
+                hs.append(d)
+    return hs, st
+
+
+def cem_replay_job(job):
+    """Replay loss histories on the real rex.cem.cem_update_mean_stdev. Candidates are one-hot vectors so that the elite set is
+    readable from the updated mean (evolution_smoothing = 0)."""
+    import jax
+    import jax.numpy as jnp
+    import numpy as onp
+
+    from rex.cem import CEMSolver, cem_update_mean_stdev
+
+    N, E = job["N"], job["E"]
+    u_min = {"x": jnp.zeros((N,))}
+    u_max = {"x": jnp.ones((N,)) * 10}
+    solver = CEMSolver.init(u_min=u_min, u_max=u_max, num_samples=N, evolution_smoothing=0.0, elite_portion=E / N + 1e-6)
+    upd = jax.jit(cem_update_mean_stdev)
+    out = []
+    for h in job["histories"]:
+        state = solver.init_state(mean={"x": jnp.zeros((N,))})
+        bad = None
+        seen = []
+        for k, (L, ex) in enumerate(zip(h["hist"], h["exp"])):
+            # candidate i of iteration k: one-hot(i) * (k + 1)
+            samples = {"x": jnp.eye(N) * (k + 1)}
+            losses = jnp.array([float("nan") if l == -1 else float(l) for l in L])
+            state = upd(solver, state, samples, losses)
+            got_best = float(state.bestsofar_loss)
+            got_best_i = 1000000 if not onp.isfinite(got_best) else int(round(got_best))
+            bs = onp.asarray(state.bestsofar["x"])
+            nz = onp.nonzero(bs)[0]
+            got_id = [int(round(bs[nz[0]])), int(nz[0]) + 1] if len(nz) == 1 else [0, 0]
+            mean = onp.asarray(state.mean["x"]) / (k + 1)
+            got_el = sorted(int(i) + 1 for i in onp.nonzero(mean > 1e-6)[0])
+            exp_id = [ex["best_it"], ex["best_idx"]]
+            if got_best_i != ex["best"]:
+                bad = dict(iteration=k, what="bestsofar_loss", expected=ex["best"], got=got_best_i, losses=L)
+            elif ex["best"] < 1000000 and got_id != exp_id:
+                bad = dict(iteration=k, what="bestsofar", expected=exp_id, got=got_id, losses=L)
+            elif got_el != sorted(ex["elites"]):
+                bad = dict(iteration=k, what="elites", expected=sorted(ex["elites"]), got=got_el, losses=L)
+            if bad:
+                break
+        out.append(dict(hist=h["hist"], ok=bad is None, bad=bad))
+    return dict(results=out)
+
+
+def solver_e2e_job(job):
+    """Real cem_step / evo_step runs with a loss that is NaN on a region; per-iteration log -> SolversTrace trace."""
+    import jax
+    import jax.numpy as jnp
+    import numpy as onp
+
+    from rex.base import Identity
+
+    kind, seed = job["solver"], job["seed"]
+    rng = random.Random(seed)
+    D = rng.choice([1, 2, 3])
+    lo, hi = -1.0 - rng.random(), 1.0 + rng.random()
+    u_min = {"p": jnp.ones((D,)) * lo}
+    u_max = {"p": jnp.ones((D,)) * hi}
+    nan_at = rng.choice([0.2, 0.5, -0.1])
+    seen = []
+
+    def log_cb(p, l):
+        seen.append((onp.asarray(p).copy(), float(l)))
+
+    def loss(params, transform, rng_):
+        p = params["p"]
+        val = jnp.floor(jnp.sum(jnp.abs(p)) * 8.0)
+        l = jnp.where(p[0] > nan_at, jnp.nan, val)
+        jax.debug.callback(log_cb, p, l)
+        return l
+
+    iters = []
+    T = job.get("steps", 6)
+    key = jax.random.PRNGKey(seed)
+    if kind == "cem":
+        from rex.cem import CEMSolver, cem_step
+
+        ns = rng.choice([4, 8, 16, 32])
+        solver = CEMSolver.init(u_min=u_min, u_max=u_max, num_samples=ns, evolution_smoothing=rng.choice([0.0, 0.1, 0.5, 0.9]),
+                                elite_portion=rng.choice([0.26, 0.3, 0.5]))
+        state = solver.init_state(mean={"p": jnp.ones((D,)) * rng.uniform(lo, hi)})
+        for k in range(T):
+            key, sub = jax.random.split(key)
+            n0 = len(seen)
+            state, losses = cem_step(loss, solver, state, Identity(), sub)
+            jax.effects_barrier()
+            iters.append(dict(state_best=float(state.bestsofar_loss), best_member=onp.asarray(state.bestsofar["p"]).copy(), n0=n0, n1=len(seen),
+                              losses=onp.asarray(losses)))
+    else:
+        from rex.evo import EvoSolver, evo_step
+
+        strat = rng.choice(["CMA_ES", "OpenES", "SimpleGA"])
+        solver = EvoSolver.init(u_min, u_max, strat, strategy_kwargs=dict(popsize=rng.choice([4, 8, 16])))
+        state = solver.init_state({"p": jnp.ones((D,)) * rng.uniform(lo, hi)}, rng=key)
+        for k in range(T):
+            key, sub = jax.random.split(key)
+            n0 = len(seen)
+            (state, _), losses = evo_step(loss, solver, state, Identity(), sub, None)
+            jax.effects_barrier()
+            iters.append(dict(state_best=float(state.best_fitness), best_member=onp.asarray(solver.unflatten(state.best_member)["p"]).copy(), n0=n0,
+                              n1=len(seen), losses=onp.asarray(losses)))
+    tr = []
+    for it in iters:
+        cands = seen[it["n0"]: it["n1"]]
+        L = [(-1 if not onp.isfinite(l) and onp.isnan(l) else int(round(l))) for _, l in cands]
+        inb = [bool(onp.all(p >= lo - 1e-6) and onp.all(p <= hi + 1e-6)) for p, _ in cands]
+        b = it["state_best"]
+        best = 1000000 if not onp.isfinite(b) else int(round(b))
+        member_ok = any(onp.allclose(p, it["best_member"], atol=1e-6) and (onp.isfinite(l) and int(round(l)) == best) for p, l in seen[: it["n1"]])
+        tr.append(dict(losses=L, inbounds=inb, best=best, member_ok=bool(member_ok)))
+    return dict(trace=dict(id=f"{job['id']}", iters=tr), meta=dict(solver=kind, dim=D, nan_seen=sum(1 for it in tr for l in it["losses"] if l == -1),
+                                                                  cands=sum(len(it["losses"]) for it in tr)))
+
+
+def c18(tier, seed):
+    from . import engine
+
+    rep = common.Report("C18", tier, seed)
+    quick = tier == "quick"
+    allh = []
+    runs = []
+    for (N, E, L, M) in ([(3, 1, [0, 1, 2], 2), (3, 2, [0, 1, 2], 2)] if quick else [(3, 1, [0, 1, 2], 2), (3, 2, [0, 1, 2], 2), (4, 2, [0, 1], 2), (3, 1, [0, 1], 3)]):
+        hs, st = _solver_histories(N, E, L, M)
+        rep.add_tlc(st)
+        runs.append(dict(module="Solvers", N=N, E=E, losses=L, iterations=M, histories=len(hs), states=st["distinct"]))
+        allh.append((N, E, hs))
+    rep.cov["model_runs"] = runs
+    rep.cov["exhaustive"] = True
+    jobs = []
+    for (N, E, hs) in allh:
+        for ci in range(0, len(hs), 1200):
+            jobs.append(dict(kind="pyfunc", module="harness.checks.smallchecks", func="cem_replay_job", id=f"c18r{N}{E}_{ci}", N=N, E=E, histories=hs[ci: ci + 1200], timeout=1200))
+    results = common.run_jobs(jobs)
+    nrep = 0
+    for res in results:
+        if not res.get("ok"):
+            raise common.MachineryError(res.get("error", "")[-2500:])
+        for rr in res["results"]:
+            nrep += 1
+            if rr["ok"]:
+                if any(-1 in L for L in rr["hist"]):
+                    rep.nontrivial(json.dumps(rr["hist"]))
+                continue
+            b = rr["bad"]
+            rep.violation(dict(what=b["what"], has_nan=-1 in b["losses"]), dict(kind="cem_history", history=rr["hist"], bad=b, N=res["job"]["N"], E=res["job"]["E"]),
+                          text=f"cem_update_mean_stdev after losses {rr['hist']}: {b}")
+    rep.cov["traces_validated_against_impl"] = nrep
+    rep.cov["evaluations"] = nrep
+    rep.sample(dict(history=[[0, -1, 2], [-1, -1, 1]], meaning="-1 = NaN; replayed on rex.cem.cem_update_mean_stdev with one-hot candidates"))
+    # end-to-end runs
+    jobs = []
+    for i in range(6 if quick else 60):
+        jobs.append(dict(kind="pyfunc", module="harness.checks.smallchecks", func="solver_e2e_job", id=f"c18e{i}", solver=("cem" if i % 2 == 0 else "evo"), seed=seed * 100 + i,
+                         steps=6 if quick else 12, timeout=900))
+    results = common.run_jobs(jobs)
+    items = []
+    for res in results:
+        if not res.get("ok"):
+            raise common.MachineryError(res.get("error", "")[-2500:])
+        items.append((res["job"], res["trace"], res["meta"]))
+    vs, st = engine.validate_parallel([t for _, t, _ in items], module="SolversTrace")
+    rep.add_tlc(st)
+    rep.cov["traces_validated_against_impl"] += len(items)
+    for (job, t, m), v in zip(items, vs):
+        rep.sample(dict(run=t["id"], **m, verdict=v["verdict"]), limit=6)
+        if v["verdict"] != "accept":
+            first_oob = next((k for k, it in enumerate(t["iters"]) if not all(it["inbounds"])), None)
+            all_nan_before = first_oob is not None and any(all(l == -1 for l in it["losses"]) for it in t["iters"][:first_oob])
+            rep.violation(dict(clause=v["clause"], solver=m["solver"], all_nan_population_before=bool(all_nan_before)),
+                          dict(kind="solver_run", job=job, verdict=v), text=f"{t['id']} ({m}): {v['detail'][:600]}")
+        elif m["nan_seen"] > 0:
+            rep.nontrivial(t["id"])
+    rep.cov["rule"] = ("Solvers (TLC): every loss history over {NaN,0,1,2}^N (N=3, elites 1-2, 2 iterations; thorough: more) with invariants BestIsMinFiniteSoFar, "
+                       "BestMemberAttainsIt, NaNNeverBestWhileFiniteExists, NaNEliteOnlyIfAllFiniteAre, BestNeverIncreases; every history replayed on the real "
+                       "cem_update_mean_stdev (best loss, best candidate, elite set); end-to-end cem_step / evo_step runs (CMA_ES, OpenES, SimpleGA) with a loss that is "
+                       "NaN on a region, logged per iteration and validated by SolversTrace incl. CandidateWithinBounds. non-trivial = history / run with NaN losses")
+    return rep.finish()
+
+
+# ================================================================================================
+# C19  RL environment wrappers
+# ================================================================================================
+def _rlw_histories(L, rewards):
+    cfgp = os.path.join(tlc.SPECS, f"RlWrappers_{L}.cfg")
+    with open(cfgp, "w") as f:
+        f.write(f"SPECIFICATION Spec\nCONSTANTS\n  L = {L}\n  Rewards = {{{', '.join(str(r) for r in rewards)}}}\n"
+                "INVARIANT LogAccounting\nINVARIANT LogStableBetweenEnds\nINVARIANT AutoResetSemantics\nINVARIANT MomentsOfEverythingSeen\nINVARIANT Emit\nCHECK_DEADLOCK FALSE\n")
+    try:
+        r = tlc.run_tlc("RlWrappers", cfg=os.path.basename(cfgp), workers=1, timeout=1800, heap="4g")
+    finally:
+        os.remove(cfgp)
+    st = r["stats"]
+    if st["invariant_violated"] or st["error"] or not st["finished"]:
+        raise common.MachineryError("RlWrappers model: " + r["out"][-2500:])
+    hs = []
+    for line in r["out"].splitlines():
+        line = line.strip()
+        if line.startswith('"RLW|'):
+            hs.append(json.loads(line[5:-1].replace('\\"', '"')))
+    return hs, st
+
+
+def rlw_replay_job(job):
+    """Replay reward/termination histories on a real wrapped rex.rl.Environment over a compiled graph."""
+    import jax
+    import jax.numpy as jnp
+    import numpy as onp
+
+    import rex.rl as rl
+    from rex.graph import Graph
+
+    from .. import compiled, gen
+    from ..probes import ProbeOut
+
+    L = job["L"]
+    cfg = dict(nodes=[dict(name="world", nid=0, period=2, delay=1, cdist=[1], advance=False, sched="F", p=1),
+                      dict(name="agent", nid=1, period=2, delay=0, cdist=[0], advance=False, sched="F", p=2)],
+               conns=[{"out": "world", "in": "agent", "name": "world", "blocking": False, "skip": False, "jitter": "L", "window": 2, "delay": 0, "cdist": [0]},
+                      {"out": "agent", "in": "world", "name": "agent", "blocking": False, "skip": True, "jitter": "L", "window": 1, "delay": 0, "cdist": [0]}],
+               sup="agent")
+    g_raw, nodes = compiled.generated_graphs(cfg, 0, 2 * (L + 6), 1)
+    nodes = gen.build_nodes(cfg, log=False)
+    G = Graph(nodes=dict(nodes), supervisor=nodes["agent"], graphs_raw=g_raw, progress_bar=False)
+    LOW, HIGH = -2.0, 2.0
+
+    class TableEnv(rl.Environment):
+        tables = None
+
+        def observation_space(self, gs):
+            return rl.Box(jnp.array([-1e6]), jnp.array([1e6]))
+
+        def action_space(self, gs):
+            return rl.Box(jnp.array([LOW]), jnp.array([HIGH]))
+
+        def get_observation(self, gs):
+            return jnp.array([gs.step]).astype(jnp.float32)
+
+        def get_output(self, gs, action):
+            return ProbeOut(nid=jnp.int32(1), eps=jnp.int32(gs.eps), seq=jnp.int32(gs.seq["agent"]), h=jnp.round(action[0] * 1000).astype(jnp.int32))
+
+        def get_reward(self, gs, action):
+            return gs.aux["tab_r"][gs.aux["clock"]]
+
+        def get_terminated(self, gs):
+            return gs.aux["tab_te"][gs.aux["clock"]]
+
+        def get_truncated(self, gs):
+            return gs.aux["tab_tr"][gs.aux["clock"]]
+
+        def update_graph_state_post_step(self, gs, action=None):
+            if action is None:
+                return gs
+            return gs.replace_aux({"clock": gs.aux["clock"] + 1})
+
+        def reset(self, rng=None):
+            gs, obs, info = super().reset(rng)
+            z = jnp.zeros((L + 1,))
+            gs = gs.replace_aux({"clock": jnp.int32(0), "tab_r": z, "tab_te": z.astype(bool), "tab_tr": z.astype(bool)})
+            return gs, obs, info
+
+    results = []
+    for variant in job["variants"]:
+        fixed_init, squash = variant["fixed_init"], variant["squash"]
+        env = TableEnv(G, params=None, only_init=False, starting_eps=0, randomize_eps=False, order=None)
+        env = rl.AutoResetWrapper(env, fixed_init=fixed_init)
+        env = rl.LogWrapper(env)
+        env = rl.SquashActionWrapper(env, squash=squash) if variant.get("wrapper", "squash") == "squash" else rl.ClipActionWrapper(env)
+        env = rl.VecEnvWrapper(env)
+        env = rl.NormalizeVecObservationWrapper(env)
+        env = rl.NormalizeVecReward(env, 1.0)
+        gs0, obs0, info0 = env.reset(jax.random.split(jax.random.PRNGKey(job["seed"]), 1))
+        step = jax.jit(env.step)
+        acts = [-1e9, -1.0, 0.0, 1.0, 1e9]
+        for h in job["histories"]:
+            hist, outs = h["hist"], h["outs"]
+            tab_r = jnp.array([[float(x["r"]) for x in hist] + [0.0] * (L + 1 - len(hist))])
+            tab_te = jnp.array([[bool(x["te"]) for x in hist] + [False] * (L + 1 - len(hist))])
+            tab_tr = jnp.array([[bool(x["tr"]) for x in hist] + [False] * (L + 1 - len(hist))])
+            gs = gs0.replace_aux({"tab_r": tab_r, "tab_te": tab_te, "tab_tr": tab_tr})
+            bad = None
+            prev_payload = None
+            for k, ex in enumerate(outs):
+                a = acts[(k + len(hist)) % len(acts)]
+                gs_prev = gs
+                gs, obs, rew, te, tr, info = step(gs, jnp.array([[a]]))
+                no, nr = gs.aux["norm_obs"], gs.aux["norm_reward"]
+                cnt = float(no.count)
+                mean = float(onp.asarray(no.mean).reshape(-1)[0])
+                var = float(onp.asarray(no.var).reshape(-1)[0])
+                rc, rm, rvv = float(nr.count), float(onp.asarray(nr.mean)), float(onp.asarray(nr.var))
+                got = dict(g=int(onp.asarray(gs.step)[0]), te=bool(onp.asarray(te)[0]), tr=bool(onp.asarray(tr)[0]),
+                           done=bool(onp.asarray(info["returned_episode"])[0]),
+                           rret=int(round(float(onp.asarray(info["returned_episode_returns"])[0]))), rlen=int(onp.asarray(info["returned_episode_lengths"])[0]),
+                           ts=int(onp.asarray(info["timestep"])[0]),
+                           on=int(round(cnt)), osx=int(round(mean * cnt)), osxx=int(round((var + mean * mean) * cnt)),
+                           rn=int(round(rc)), rsx=int(round(rm * rc)), rsxx=int(round((rvv + rm * rm) * rc)))
+                # un-normalised observation: denormalise what the wrapper returned (clip is far away for these values)
+                got["obs"] = int(round(float(onp.asarray(no.denormalize(obs)).reshape(-1)[0])))
+                # reward is scaled by the running std of the returns; its sign and zero-ness survive
+                rsign = int(onp.sign(round(float(onp.asarray(rew)[0]), 6)))
+                exp = {k2: ex[k2] for k2 in got}
+                if got != exp:
+                    bad = dict(step=k, expected=exp, got=got, diff=[k2 for k2 in got if got[k2] != exp[k2]])
+                    break
+                if rsign != (ex["r"] > 0) - (ex["r"] < 0):
+                    bad = dict(step=k, what="reward sign", expected=ex["r"], got=float(onp.asarray(rew)[0]))
+                    break
+                # the supervisor's output in the graph is the action after squash / clip (only observable when no reset happened)
+                if not ex["done"]:
+                    buf = gs.buffer["agent"]
+                    seqs = onp.asarray(buf.seq).reshape(-1)
+                    hs_ = onp.asarray(buf.h).reshape(-1)
+                    last = int(onp.asarray(gs.seq["agent"]).reshape(-1)[0]) - 1
+                    idx = [i for i, s in enumerate(seqs) if s == last]
+                    exp_a = (onp.tanh(a) * (HIGH - LOW) / 2 + (HIGH + LOW) / 2) if (squash and variant.get("wrapper", "squash") == "squash") else min(max(a, LOW), HIGH)
+                    if not idx or abs(hs_[idx[0]] - round(exp_a * 1000)) > 1 or not (LOW * 1000 - 1 <= hs_[idx[0]] <= HIGH * 1000 + 1):
+                        bad = dict(step=k, what="supervisor output is the (squashed/clipped) action", action=a, expected=round(exp_a * 1000),
+                                   got=(int(hs_[idx[0]]) if idx else None))
+                        break
+            results.append(dict(hist=hist, variant=variant, ok=bad is None, bad=bad))
+    return dict(results=results)
+
+
+def c19(tier, seed):
+    rep = common.Report("C19", tier, seed)
+    quick = tier == "quick"
+    L = 3 if quick else 4
+    hs, st = _rlw_histories(L, [0, 1, 3])  # reward codes: reward = code - 1
+    rep.add_tlc(st)
+    rep.cov["model_runs"] = [dict(module="RlWrappers", L=L, histories=len(hs), states=st["distinct"], transitions=st["generated"])]
+    rep.cov["exhaustive"] = True
+    rng = random.Random(seed)
+    pick = hs if not quick else rng.sample(hs, min(len(hs), 400))
+    variants = [dict(fixed_init=True, squash=True), dict(fixed_init=False, squash=False), dict(fixed_init=True, squash=False, wrapper="clip")]
+    jobs = []
+    nchunk = 12
+    for ci in range(nchunk):
+        ch = pick[ci::nchunk]
+        if ch:
+            jobs.append(dict(kind="pyfunc", module="harness.checks.smallchecks", func="rlw_replay_job", id=f"c19r{ci}", L=L, seed=seed + ci, histories=ch,
+                             variants=[variants[ci % 3]] if quick else variants, timeout=2400))
+    results = common.run_jobs(jobs)
+    n = 0
+    for res in results:
+        if not res.get("ok"):
+            raise common.MachineryError(res.get("error", "")[-3000:])
+        for rr in res["results"]:
+            n += 1
+            if rr["ok"]:
+                if any(x["te"] or x["tr"] for x in rr["hist"]):
+                    rep.nontrivial(json.dumps([rr["hist"], rr["variant"]]))
+                rep.sample(dict(history=rr["hist"], variant=rr["variant"], verdict="conforms"), limit=3)
+                continue
+            b = rr["bad"]
+            rep.violation(dict(diff=b.get("diff"), what=b.get("what"), variant=rr["variant"]), dict(kind="rl_history", history=rr["hist"], variant=rr["variant"], bad=b),
+                          text=f"wrappers {rr['variant']} on history {rr['hist']}: {b}")
+    rep.cov["traces_validated_against_impl"] = n
+    rep.cov["evaluations"] = n
+    rep.cov["rule"] = ("RlWrappers (TLC): every reward/termination history of length L over rewards {-1,0,2} x terminated x truncated with invariants "
+                       "LogAccounting, LogStableBetweenEnds, AutoResetSemantics, MomentsOfEverythingSeen; each history is replayed on a real "
+                       "NormalizeVecReward(NormalizeVecObservation(VecEnv(Squash|Clip(Log(AutoReset(fixed|fresh)(Environment over a compiled graph)))))): after "
+                       "every step the observation (= graph step), reward sign, flags, returned episode return/length, timestep, graph step, running moments "
+                       "(as exact integer sums) and the supervisor output found in the graph buffer (= squashed/clipped action, inside the bounds) must equal "
+                       "the model. non-trivial = history with at least one episode end")
+    rep.assumptions += ["scale/unsquash being mutual inverses up to rounding and the numeric value of normalised observations are floating-point identities and are not decided here",
+                        "gamma = 1, batch of one, integer rewards"]
+    return rep.finish()
+
+
+# ================================================================================================
+# C10  trainable (zero-order-hold) delay = static delay
+# ================================================================================================
+def _td_cases(quick):
+    cfgp = os.path.join(tlc.SPECS, "TrainableDelay_run.cfg")
+    with open(cfgp, "w") as f:
+        f.write("SPECIFICATION Spec\nCONSTANTS\n  Periods = {2, 3}\n  Jitters = {0, 1}\n  M = %d\n  MaxTs = %d\n  Ranges <- RangesDef\n  Ws = {1, 2%s}\nINVARIANT Emit\nCHECK_DEADLOCK FALSE\n"
+                % ((4, 10, "") if quick else (5, 13, ", 3")))
+    try:
+        r = tlc.run_tlc("TrainableDelay", cfg="TrainableDelay_run.cfg", workers=1, timeout=3000, heap="6g")
+    finally:
+        os.remove(cfgp)
+    st = r["stats"]
+    if st["error"] or not st["finished"]:
+        raise common.MachineryError("TrainableDelay: " + r["out"][-2500:])
+    cases = []
+    for line in r["out"].splitlines():
+        line = line.strip()
+        if line.startswith('"TDC|'):
+            cases.append(json.loads(line[5:-1].replace('\\"', '"')))
+    return cases, st
+
+
+def td_replay_job(job):
+    """Feed enumerated cases to the real TrainableDist.apply_delay (zoh) and return the window sequence numbers it produces."""
+    import jax
+    import jax.numpy as jnp
+    import numpy as onp
+
+    from rex import base
+    from ..probes import GRID
+
+    out = []
+    groups = {}
+    for i, d in enumerate(job["cases"]):
+        c = d["c"]
+        groups.setdefault((c["P"], c["Min"], c["Max"], c["W"], len(d["extwin"])), []).append((i, d))
+    res = [None] * len(job["cases"])
+    for (P, Min, Max, W, cum), lst in groups.items():
+        dist0 = base.TrainableDist.create(delay=Min / GRID, min=Min / GRID, max=Max / GRID, interp="zoh")
+        assert dist0.window(GRID / P) == cum - W, (dist0.window(GRID / P), cum, W)
+
+        def one(seq, ts_sent, ts_recv, dval, ts):
+            dd = dist0.replace(alpha=dist0.get_alpha(dval))
+            inp = base.InputState.from_outputs(seq, ts_sent, ts_recv, seq.astype(jnp.float32), delay_dist=dd, is_data=True)
+            o = dd.apply_delay(GRID / P, inp, ts)
+            return o.seq, o.data, o.ts_sent
+
+        f = jax.jit(jax.vmap(one))
+        seqs = onp.array([d["extwin"] for _, d in lst], dtype=onp.int32)
+        sent = onp.array([[(d["sent"][s] / GRID if s >= 0 else 0.0) for s in d["extwin"]] for _, d in lst], dtype=onp.float32)
+        recv = onp.array([[((d["sent"][s] + d["c"]["Min"]) / GRID if s >= 0 else 0.0) for s in d["extwin"]] for _, d in lst], dtype=onp.float32)
+        dval = onp.array([d["c"]["d"] / GRID for _, d in lst], dtype=onp.float32)
+        ts = onp.array([d["c"]["ts"] / GRID for _, d in lst], dtype=onp.float32)
+        oseq, odata, osent = f(seqs, sent, recv, dval, ts)
+        oseq, odata = onp.asarray(oseq), onp.asarray(odata)
+        for k, (i, d) in enumerate(lst):
+            res[i] = dict(seq=[int(x) for x in oseq[k]], data=[int(round(float(x))) for x in odata[k]], n=int(oseq.shape[1]))
+    return dict(results=res)
+
+
+def c10(tier, seed):
+    rep = common.Report("C10", tier, seed)
+    quick = tier == "quick"
+    cases, st = _td_cases(quick)
+    rep.add_tlc(st)
+    model_dis = sum(1 for d in cases if d["zoh"] != d["static"])
+    rep.cov["model_runs"] = [dict(module="TrainableDelay", cases=len(cases), states=st["distinct"], model_disagreements_zoh_vs_static=model_dis)]
+    rep.cov["exhaustive"] = True
+    chunks = [cases[i::16] for i in range(16)]
+    jobs = [dict(kind="pyfunc", module="harness.checks.smallchecks", func="td_replay_job", id=f"c10r{i}", cases=ch, timeout=1800) for i, ch in enumerate(chunks) if ch]
+    results = common.run_jobs(jobs)
+    n = 0
+    drift = 0
+    for res, ch in zip(results, [c for c in chunks if c]):
+        if not res.get("ok"):
+            raise common.MachineryError(res.get("error", "")[-3000:])
+        for d, r in zip(ch, res["results"]):
+            n += 1
+            c = d["c"]
+            got = [s if s >= 0 else -1 for s in r["seq"]]
+            if r["n"] != c["W"]:
+                rep.violation(dict(kind="window_size"), dict(kind="td_case", case=d, got=r), text=f"apply_delay returned {r['n']} entries, window is {c['W']}: {c}")
+                continue
+            if r["data"] != r["seq"]:
+                rep.violation(dict(kind="payload_of_other_entry"), dict(kind="td_case", case=d, got=r), text=f"apply_delay: payloads {r['data']} do not belong to sequence numbers {r['seq']}: {c}")
+                continue
+            if got != d["zoh"]:
+                drift += 1  # the code no longer follows the implementation-shaped model (not a verdict by itself)
+            if got == d["static"]:
+                if c["d"] != d["deff"] or d["tie"] or any(s < 0 for s in got):
+                    rep.nontrivial(json.dumps(c, sort_keys=True))
+                continue
+            cls = "other"
+            if c["skip"] and d["tie"]:
+                cls = "skip_tie"
+            elif d["idxmin"] < 0:
+                cls = "window_extension_too_small"
+            rep.violation(dict(kind="zoh_differs_from_static", cls=cls), dict(kind="td_case", case=d, got=r),
+                          text=f"apply_delay gives window {got}, a static delay of {d['deff']} gives {d['static']} (class {cls}): case {c}, sends at {d['sent']}")
+    rep.cov["traces_validated_against_impl"] = n
+    rep.cov["evaluations"] = n
+    if drift:
+        rep.note(f"MODEL-DRIFT property=C10: {drift} cases where apply_delay differs from the ZohWindow model (verdicts are taken against StaticWindow only)")
+    rep.sample(cases[0])
+    rep.sample(next((d for d in cases if d["zoh"] != d["static"]), cases[-1]))
+    rep.cov["rule"] = ("TrainableDelay (TLC) enumerates sender timelines (period 2-3 ticks, jittered send times), step start times, ranges [min,max] in "
+                       "{[0,2],[1,3],[0,4]}, every grid delay d from 0 to max+1 (saturation), window 1-2(3), skip on/off; for each case the extended window the "
+                       "compiled schedule would hand over is built as a real InputState and given to the real TrainableDist.apply_delay (zoh); the result must be "
+                       "StaticWindow(d): exactly `window` entries, the last messages that arrived by the step's start under a fixed delay d. non-trivial = case with a "
+                       "tie, saturation or a partially filled window")
+    rep.assumptions += ["unit level: apply_delay on extended windows built as apply_window builds them; end-to-end pairs of compiled systems are not run",
+                        "ranges with max-min a power of two so that alpha and min+alpha*(max-min) are exact in float32 (a tie is decided by exact comparison)"]
+    return rep.finish()
